@@ -276,7 +276,7 @@ func (s *shaper) tx(kind string, huge bool) core.Transaction {
 }
 
 var revertReasons = []string{
-	"", "x", "out of gas", "assert failed: échec ✓ 失敗 \U0001F4A5", "line1\nline2\ttab\x00nul", "   ﻿ bom",
+	"", "x", "out of gas", "assert failed: échec ✓ 失敗 \U0001F4A5", "line1\nline2\ttab\x00nul", "\u2028\u2029 \ufeff bom",
 	"0x4661696c656420746f20646573657269616c697a6520706172616d202331 ('Failed to deserialize param #1')",
 }
 
